@@ -241,9 +241,44 @@ def c20(tier, seed):
     return finish(agg, "exploration", cov, ["two handles of one process; evaluation through masa_select_mms switching", "the scale e comes from the jet oracle; the verdict compares library with library"], floors)
 
 
+# --------------------------------------------------------------------------------------------- C08
+@prop("C08")
+def c08(tier, seed):
+    agg = Agg("C08", tier, seed)
+    exe = build.build_bin("plain", "mon_closed", COMMON + ["mon_closed.cpp"], opt="-O2")
+    ns, nc, k = (60, 60, 2) if tier == "quick" else (3000, 1500, 8)
+    shards = []
+    for what, n in (("sod", ns), ("cp", nc)):
+        for p in ("d", "l"):
+            for i in range(k):
+                shards.append(Shard(exe, [str(a) for a in ["--seed", seed, "--shard", i * 2 + (p == "l") + (100 if what == "cp" else 0), "--what", what, "--prec", p, "--cases", n]],
+                                    "%s/%s/%d" % (what, p, i), timeout=3600))
+    agg.add_shards(run_shards(shards))
+    worst = {}
+    for st in agg.stats.get("ratio", []):
+        worst[st["k"]] = max(worst.get(st["k"], 0), round(st["max"], 3))
+    cov = {"evaluations": agg.count("sod_comparisons") + agg.count("cp_comparisons") + 9 * agg.count("sod_invariant_sets") + agg.count("sod_front_location_probes") + 5 * agg.count("cp_quadrature_sets"),
+           "distinct_nontrivial": agg.count("sod_gammas") + agg.count("cp_parameter_sets"),
+           "rule": "Sod: Gamma ~ U(1.05,3) with mu = (Gamma-1)/(Gamma+1) set consistently, t ~ U(0.05,3), two points in each of the five regions (left, fan, star-left, "
+                   "star-right, right), skipped within 1e-6 of a wave front; compared with an exact Riemann solver in quad precision and with reference-free "
+                   "invariants (fan velocity and isentropy, Riemann invariant at the star state, velocity across the contact, p* from shock jump == p* from isentrope, "
+                   "Hugoniot density ratio, contact and shock located at the speeds the library's own star state implies). cp_normal: m, sigma, sigma_d drawn, data "
+                   "vector of length 1..50 re-set 1-3 times, the five evaluator groups called in a random order (posterior mean possibly first), central moments "
+                   "k=0..20, quadrature of prior/posterior and their moments, posterior/(prior*likelihood) constancy, loglik == log(lik). Each Gamma / parameter set "
+                   "is a distinct case.",
+           "sod_gammas": agg.count("sod_gammas"), "cp_parameter_sets": agg.count("cp_parameter_sets"), "cp_distinct_data_lengths": agg.ndistinct("cp_data_lengths"),
+           "sod_skipped_near_front": agg.count("sod_skipped_near_front"),
+           "max_error_in_units_of_u_times_scale": dict(sorted(worst.items(), key=lambda kv: -kv[1])[:24])}
+    floors = [("Sod compared at >= 500 points", agg.count("sod_comparisons") >= 500), ("Sod invariants on >= 50 Gammas", agg.count("sod_invariant_sets") >= 50),
+              ("cp_normal >= 1000 closed-form comparisons", agg.count("cp_comparisons") >= 1000), ("cp_normal quadrature on >= 20 parameter sets", agg.count("cp_quadrature_sets") >= 20),
+              (">= 20 distinct data-vector lengths", agg.ndistinct("cp_data_lengths") >= 20)]
+    return finish(agg, "exploration", cov, ["exact Riemann solver (Toro) and conjugate-normal formulas written in the harness in __float128", "mu kept consistent with Gamma (the property quantifies over Gamma)"], floors)
+
+
 def prebuild():
     """build every harness binary the quick checks use (called by setup)"""
     build.build_bin("exc", "mon_names", COMMON + ["mon_names.cpp"])
     build.build_bin("plain", "mon_names", COMMON + ["mon_names.cpp"])
     pde_exe("plain")
+    build.build_bin("plain", "mon_closed", COMMON + ["mon_closed.cpp"], opt="-O2")
     build.build_bin("plain", "mon_reduce", RED_SRCS, opt="-O2")
